@@ -172,30 +172,11 @@ func (w *world) verifyScan(v *view, t *txProg, r *readRec, bad func(r *readRec, 
 			if d == "" {
 				continue
 			}
-			// class K05a: the rest of the pass returned only own writes (and did not reach the end),
-			// and the entry that should have been returned is a committed one preceding the own key
-			class := ""
-			if cl.out.status == stFound && cl.out.isOwn && e.status == stFound && !e.isOwn {
-				class = kReaderOwnTail
-				for j := i; j < len(r.calls); j++ {
-					o := r.calls[j]
-					if o.kind == 'R' || o.kind == 'W' {
-						break
-					}
-					if o.out.status != stFound || !o.out.isOwn {
-						class = ""
-					}
-				}
-				cmp := bytes.Compare(e.key, cl.out.key)
-				if (r.spec.Desc && cmp <= 0) || (!r.spec.Desc && cmp >= 0) {
-					class = ""
-				}
-			}
 			what := "Read"
 			if cl.kind == 'b' {
 				what = fmt.Sprintf("ReadBetween(%d,%d)", cl.ini, cl.fin)
 			}
-			bad(r, class, "call #%d (%s, #%d of its pass) of the reader %s returns %s; the transaction observed %s (%s)", i+1, what, i-pass+1, r.spec, e, cl.out, d)
+			bad(r, "", "call #%d (%s, #%d of its pass) of the reader %s returns %s; the transaction observed %s (%s)", i+1, what, i-pass+1, r.spec, e, cl.out, d)
 			return
 		}
 	}
